@@ -65,6 +65,18 @@ class C01(Check):
             descs.append(("tx", G.tx_desc(rng, **G.random_shape(rng, small=False))))
         for n in (0, 1, 2, 3, 127, 128):
             descs.append(("block", G.block_desc(rng, n)))
+        # vectors longer than the steps a decoder might grow by (64 KiB of elements: 2048 hashes, 8192 varints, 65536 bytes) and
+        # not a multiple of them
+        for n in (2047, 2048, 2049, 4097, 5000):
+            descs.append(("block", G.block_desc(rng, n)))
+        descs.append(("vec_varint", G.lst([[str(k % 251)] for k in range(8193)])))
+        descs.append(("vec_varint", G.lst([[str(k % 251)] for k in range(20000)])))
+        descs.append(("vec_hash", G.lst([[G.key(rng)] for _ in range(2050)])))
+        descs.append(("box_hash", G.lst([[G.key(rng)] for _ in range(3000)])))
+        descs.append(("box_u8", [G.hexb(rng, 65537)]))
+        descs.append(("box_u8", [G.hexb(rng, 150000)]))
+        descs.append(("tx", G.tx_desc(rng, 2, ["gen"], 1, [False], 0, extra_len=70001)))
+        descs.append(("tx", G.tx_desc(rng, 1, ["key"], 1100, [False], 0, extra_len=3)))
         for _ in range(10):
             descs.append(("block", G.block_desc(rng, rng.randint(0, 5), G.tx_desc(rng, **G.random_shape(rng)))))
         for _ in range(40):
